@@ -76,7 +76,7 @@ Inductive word_kind := WNum | WChar | WEnum.
 Definition wkind (es : list enumdecl) (c : column) : option word_kind :=
   match c_type c with
   | TChar _ => match enum_for (c_name c) es with Some _ => Some WEnum | None => Some WChar end
-  | TUnsup _ => None
+  | TUnsup _ | TCharU => None
   | _ => Some WNum
   end.
 
